@@ -284,7 +284,8 @@ class Statement(object):
                         (target.operation == "-" and target.right.is_address()):
                     raise TranslationError("Branch target must be a label, label+n or label-n", self)
                 branch_index = target.extract_address_index_from_expression()
-                constant = target.left.int if target.left.is_numeric() else target.right.int
+                numeric = target.left if target.left.is_numeric() else target.right
+                constant = -numeric.int if numeric.is_negative() else numeric.int
                 constant = -constant if target.operation == "-" else constant
             elif self.code_pkg.additional.is_address():
                 branch_index = self.code_pkg.additional.int
